@@ -35,6 +35,14 @@ def setup(tier):
     if C is not None:
         return
     C = convgen.ctx()
+    # prefixes of other bases are part of the API ("systems of factors with a common integer
+    # base"): the library itself uses 12**-1 for the semitone; name two more here
+    m = C.m
+    for base, e, nm, sy in ((12, -1, "vf11 twelfth", "vftw"), (12, 1, "vf11 dozen", "vfdz"), (7, 2, "vf11 sevensq", "vfss")):
+        p_ = m.Prefix(base, e, name=nm, symbol=sy)
+        C.snap.prefixes[nm] = p_
+        if nm not in C.prefixes:
+            C.prefixes.append(nm)
     PFX = [""] + C.prefixes
     want = ["meter", "gram", "kilogram", "second", "ampere", "kelvin", "mole", "candela", "bit", "byte", "newton", "joule", "watt",
             "pascal", "volt", "ohm", "hertz", "liter", "hectare", "acre", "foot", "inch", "mile", "pound", "gallon", "hour",
